@@ -857,6 +857,16 @@ func vmgrGenSeq(w *vmgrWorld, out *vmgrOut, rng *rand.Rand, nops int) {
 				n = 0
 			}
 			do("setn %d", n)
+			if rng.Intn(3) == 0 && w.m != nil {
+				// multi-step reconfiguration without a Pick in between, ending at the size that is running now
+				if rng.Intn(2) == 0 {
+					do("setn %d", 1+rng.Intn(6))
+				}
+				if cur := len(w.m.polls); cur >= 1 {
+					do("setn %d", cur)
+				}
+				do("pick")
+			}
 		case x < 85:
 			do("setlb %d", []int{0, 1, 0, 1, 2, 7}[rng.Intn(6)])
 		case x < 93:
